@@ -18,7 +18,7 @@ import concurrent.futures as cf
 import vlib
 
 PID = 'C18'
-ALL_BODIES = ['ENCA', 'ENCB', 'ENCC', 'ENCD', 'DECA', 'DECB', 'DECF', 'DECH', 'VFA', 'VFB', 'VFF', 'VFC']
+ALL_BODIES = ['ENCA', 'ENCB', 'ENCC', 'ENCD', 'DECA', 'DECB', 'DECF', 'DECH', 'DECL', 'DECR', 'VFA', 'VFB', 'VFF', 'VFC', 'VFL', 'VFR']
 CORE = ['ENCA', 'ENCB', 'DECA', 'DECB', 'DECF', 'VFA', 'VFB']
 BODY_DOC = {
     'ENCA': 'encoder stereo 44.1k VBR q0.4, 3x1024 samples', 'ENCB': 'encoder mono 8k, setup_managed+ctl+setup_init (bitrate managed)',
@@ -28,6 +28,9 @@ BODY_DOC = {
     'VFA': 'vorbisfile on s1: open, info, ov_read, pcm_seek, read, halfrate, read, time_seek, read_float, clear',
     'VFB': 'vorbisfile on s2: ov_read_float, pcm_seek, halfrate, pcm_seek_lap, ov_read, clear',
     'VFF': 'vorbisfile on the floor-0 stream (raw_seek)', 'VFC': 'vorbisfile on the 2-link chain s1+s2',
+    'DECL': 'packet decoder on coupled stereo with a digitally silent LEFT channel (unused floor on one side of a coupled pair)',
+    'DECR': 'packet decoder on coupled stereo with a digitally silent RIGHT channel, with synthesis_restart',
+    'VFL': 'vorbisfile (ov_read_float) on the left-silent stream', 'VFR': 'vorbisfile (ov_read, pcm_seek_lap) on the right-silent stream',
 }
 FILLS = [0x00, 0xFF, 0x55, 0xAA, 0x7F]
 GRAN_NAME = {1: 'g1', 2: 'g1f', 3: 'g2'}
@@ -42,7 +45,14 @@ def streams(exe):
     if r.returncode != 0:
         raise RuntimeError('floor-0 synthesis failed: ' + r.stderr)
     ch = vlib.write_file('c18_ch.ogg', open(p1, 'rb').read() + open(p2, 'rb').read())
-    return ['s1=' + p1, 's2=' + p2, 'f0=' + f0, 'ch=' + ch]
+    pan = []
+    for side, nm in ((0, 'pl'), (1, 'pr')):      # hard-panned stereo: channel `side` is exactly zero
+        pp = os.path.join(vlib.zoo_dir(), f'c18_{nm}.ogg')
+        r = subprocess.run([exe, '--mkpan', pp, str(side), '9000'], stdout=subprocess.PIPE, stderr=subprocess.PIPE, text=True, timeout=60)
+        if r.returncode != 0:
+            raise RuntimeError('hard-panned stream encode failed: ' + r.stderr)
+        pan.append(f'{nm}={pp}')
+    return ['s1=' + p1, 's2=' + p2, 'f0=' + f0, 'ch=' + ch] + pan
 
 
 def kv(line):
@@ -146,7 +156,7 @@ def run_valgrind(exe, st, body, timeout=900):
 # ------------------------------------------------------------------------------------------------ main
 def plan_jobs(tier):
     pairs = [list(c) for c in itertools.combinations_with_replacement(CORE, 2)]
-    extra_pairs = [['ENCC', 'ENCA'], ['ENCD', 'ENCB'], ['DECH', 'DECB'], ['VFF', 'DECF'], ['VFC', 'VFA'], ['ENCC', 'VFC']]
+    extra_pairs = [['ENCC', 'ENCA'], ['ENCD', 'ENCB'], ['DECH', 'DECB'], ['VFF', 'DECF'], ['VFC', 'VFA'], ['ENCC', 'VFC'], ['DECL', 'DECR'], ['VFL', 'VFR'], ['DECL', 'VFL']]
     triples = [['ENCA', 'DECA', 'VFB'], ['ENCB', 'DECF', 'VFA'], ['DECA', 'DECA', 'DECB']]
     jobs = []
     if tier == 'quick':
@@ -213,7 +223,7 @@ def _run(chk, tier, t0, deadline, exe, texe, st):
     # (threads, repetitions per process, bodies, processes): every process start is a cold library (lazily built tables!)
     reps = 10 if tier == 'quick' else 15
     procs = 3 if tier == 'quick' else 5
-    tsan_base = [(16, reps, ALL_BODIES, procs), (8, reps, ['ENCA'], procs), (8, reps, ['DECF', 'VFF', 'DECA', 'VFA'], procs), (12, reps, ['ENCB', 'ENCD', 'DECB', 'DECH', 'VFB', 'VFC'], procs)]
+    tsan_base = [(16, reps, ALL_BODIES, procs), (8, reps, ['ENCA'], procs), (8, reps, ['DECF', 'VFF', 'DECA', 'VFA', 'DECL', 'VFR'], procs), (12, reps, ['ENCB', 'ENCD', 'DECB', 'DECH', 'VFB', 'VFC'], procs)]
     if tier == 'thorough':
         tsan_base += [(16, reps, ['ENCA', 'ENCC', 'DECB', 'VFB'], procs), (2, 40, ['ENCA', 'DECB'], procs), (2, 40, ['DECA', 'DECA'], procs), (3, 40, ['VFA', 'DECA', 'ENCB'], procs)]
     tsan_cfgs = [(n, r, b) for n, r, b, k in tsan_base for _ in range(k)]
